@@ -4,6 +4,7 @@ import GeosModel.Base.F64
 import GeosModel.Base.Kernel
 import GeosModel.Base.GTree
 import GeosModel.Model.Simplify.DP
+import GeosModel.Model.Simplify.Dist
 import GeosModel.Model.Simplify.Contracts
 /-!
 Driver for C18 (`drv_c18 <stream>`):
@@ -27,32 +28,19 @@ deriving BEq, Repr, Inhabited
 def P.x (p : P) : Float := Float.ofBits p.xb
 def P.y (p : P) : Float := Float.ofBits p.yb
 
-/-- `CoordinateXY::distance` -/
-def ptDist (p a : P) : Float :=
-  let dx := p.x - a.x
-  let dy := p.y - a.y
-  Float.sqrt (dx * dx + dy * dy)
+def P.xy (p : P) : Cxx.XY Float := ⟨p.x, p.y⟩
 
-/-- `algorithm::Distance::pointToSegment(p, A, B)` — same operations in the same order -/
-def pointToSegment (p A B : P) : Float :=
-  if A.x == B.x && A.y == B.y then ptDist p A
-  else
-    let r := ((p.x - A.x) * (B.x - A.x) + (p.y - A.y) * (B.y - A.y)) /
-             ((B.x - A.x) * (B.x - A.x) + (B.y - A.y) * (B.y - A.y))
-    if r <= 0.0 then ptDist p A
-    else if r >= 1.0 then ptDist p B
-    else
-      let s := ((A.y - p.y) * (B.x - A.x) - (A.x - p.x) * (B.y - A.y)) /
-               ((B.x - A.x) * (B.x - A.x) + (B.y - A.y) * (B.y - A.y))
-      Float.abs s * Float.sqrt ((B.x - A.x) * (B.x - A.x) + (B.y - A.y) * (B.y - A.y))
+/-- `algorithm::Distance::pointToSegment(p, A, B)`: the generic model `DP.pointToSegment` (Model/Simplify/Dist.lean, the
+target of the bridge theorems of Props/C18Gen.lean) at hardware doubles -/
+def pointToSegment (p A B : P) : Float := DP.pointToSegment (R := Float) p.xy A.xy B.xy
 
-/-- the instance the C++ runs: doubles, `>` and `<=`, `-1.0`, `operator==` -/
+/-- the instance the C++ runs: `DP.cxxOps` at `Float` (doubles, `>` and `<=`, `-1.0`, `operator==`) on the vertices' values -/
 def floatOps : DP.Ops P Float :=
-  { dist := fun a b p => pointToSegment p a b
-    gt := fun x y => decide (x > y)
-    le := fun x y => decide (x ≤ y)
-    init := -1.0
-    eq := fun a b => a.x == b.x && a.y == b.y }
+  { dist := fun a b p => (DP.cxxOps (R := Float)).dist a.xy b.xy p.xy
+    gt := (DP.cxxOps (R := Float)).gt
+    le := (DP.cxxOps (R := Float)).le
+    init := (DP.cxxOps (R := Float)).init
+    eq := fun a b => (DP.cxxOps (R := Float)).eq a.xy b.xy }
 
 def ptsOf (s : CSeq) : List P := s.pts.map fun c => ⟨c.x, c.y⟩
 
